@@ -4,7 +4,7 @@ CONSTANTS
   ScenariosOf <- MCScenariosOf
   QuietWins = TRUE
   Cuts = 8
-  Fams = {"faults", "args", "pipe"}
+  Fams = {"faults", "args", "pipe", "pre"}
   MaxFiles = 4
   FaultKinds <- AllKinds
   NoMsgs <- Both
